@@ -7,6 +7,7 @@ import ScVerif.C16.WireLemmas
 import ScVerif.C16.FloatIEEE
 import ScVerif.C16.RoundedF
 import ScVerif.C16.Update
+import ScVerif.C16.Shared
 /-!
 Driver handler for C16.  Parsing/printing glue only (trusted base of the correspondence check).
 
@@ -321,6 +322,25 @@ def handle? (toks : List String) : Option String :=
     let tops ← evs.mapM parseTop?
     let ces ← pairUp tops
     pure ("d=" ++ String.join ((collPullLoopI e flt inc ces).map showDec))
+  | "cshared" :: m :: f :: i :: ns :: evs => do
+    -- `cshared <mspec> <filter> <inc> <inc1|inc2|...> (<old> <new>)*`: the observed subscriber (number 0) next to
+    -- neighbours 1..n with include predicates of their own; per event the neighbours finish first, then 0 moves
+    let e ← parseOptMSpec? m
+    let flt ← parseFilter? f
+    let inc ← parseInc? i
+    let nincs ← (ns.splitOn "|").mapM parseInc?
+    let tops ← evs.mapM parseTop?
+    let ces ← pairUp tops
+    let cfg : Nat → SubCfg := fun k =>
+      if k = 0 then ⟨if f = "all" then none else some flt, inc⟩
+      else ⟨none, (nincs.getD (k - 1) none)⟩
+    let sched : List Nat :=
+      ((List.range nincs.length).flatMap (fun k => [k + 1, k + 1, k + 1])) ++ [0, 0, 0]
+    let dec (ev : CEvent) : String :=
+      match (sysRun includeFresh e cfg (SharedSys.init ev) sched).pc 0 with
+      | .done d => showDec d
+      | _ => "?"
+    pure ("d=" ++ String.join (ces.map dec))
   | ["wire", h] => do
     let b ← parseHex? h.toList
     match wireRecords b with
